@@ -22,10 +22,15 @@ class Report:
         self.extra = {}
         self.wall = 0.0
         self.controls = []
+        self.tag = ""
 
     # ---- recording -----------------------------------------------------------------------------
     def ob(self, rule, instance, ok, detail="", loc=None, key=None):
         """One obligation = one (rule, instance) pair that was actually examined on this run."""
+        if self.tag:
+            instance = "%s%s" % (instance, self.tag)
+            if key:
+                key = key + self.tag
         o = {"rule": rule, "instance": instance, "ok": bool(ok), "detail": detail}
         if loc:
             o["loc"] = loc
